@@ -73,6 +73,16 @@ fn import_path(req: &Value) -> Value {
     let want = norm(&cwd.join(&import));
     let mut notes = vec![];
     let mut agree = true;
+    if !import.to_string_lossy().ends_with(".ts") {
+        // hypothesis of the resolution law: the dependency's file carries the `.ts` extension (TypeScript cannot import anything else)
+        return json!({"skipped": "import file does not end in .ts", "agree": true});
+    }
+    if let (Some(w), Some(d)) = (&want, norm(&cwd.join(&from)).and_then(|p| p.parent().map(|x| x.to_path_buf()))) {
+        if d.starts_with(w) {
+            // a path cannot be both the dependency's file and a directory containing the importing file
+            return json!({"skipped": "import is the importing file's directory or an ancestor", "agree": true});
+        }
+    }
     match &actual {
         Ok(Ok(s)) => {
             if !(s.starts_with("./") || s.starts_with("../")) { agree = false; notes.push("not relative"); }
